@@ -13,6 +13,7 @@ import warnings
 
 import numpy as np
 
+from .. import gen
 from ..attach import attach, detach_all, calls, replay_call
 from ..kernel import Monitor, hsig
 
@@ -517,10 +518,23 @@ def drive_nd(mon: Monitor, rng: random.Random, count: int) -> None:
         a = rng.randint(0, n)
         return slice(a, rng.randint(a, n))
 
+    prv = random.Random(rng.getrandbits(32) ^ 0x17)  # (one draw from the main stream; the number-type decisions below come from this private stream)
+
+    def npints(roi_, typ):
+        """The same region with numpy integer bounds - what np.searchsorted / argmax / shape arithmetic on arrays hand over."""
+        cv = lambda v: None if v is None else typ(v)
+        # (a bare index stays a Python int: the helpers are typed `int | slice` and test isinstance(s, int); a numpy integer *index* raises AttributeError - loud, and outside
+        # what the statement quantifies over; recorded in DESIGN as an observation)
+        return tuple(slice(cv(s.start), cv(s.stop)) if isinstance(s, slice) else s for s in roi_)
+
     for _ in range(count):
         nd = rng.choice([2, 2, 3])
         shape = tuple(rng.randint(1, 12) for _ in range(nd))
         roi = tuple(rs(n) for n in shape)
+        typ = prv.choice([None, None, np.int64, np.int32, np.intp])
+        if typ is not None:
+            roi = npints(roi, typ)
+            mon.obs["regions_with_numpy_integer_bounds"] += 1
         try:
             R.roi_normalise(roi, shape)
             R.roi_pad(roi, rng.randint(0, 4), shape)
@@ -528,6 +542,10 @@ def drive_nd(mon: Monitor, rng: random.Random, count: int) -> None:
             pass
         a = tuple(rn(n) for n in shape)
         b = tuple(rn(n) for n in shape)
+        if typ is not None:
+            a, b = npints(a, typ), npints(b, prv.choice([typ, np.int64, int]))
+            if prv.random() < 0.5:
+                shape = tuple(typ(n) for n in shape)
         R.roi_intersect3(a, b)
         R.roi_intersect(a, b)
         R.roi_shape(a), R.roi_is_empty(a), R.roi_is_full(a, shape), R.roi_center(a)
@@ -583,6 +601,13 @@ def drive_points(mon: Monitor, rng: random.Random, count: int) -> None:
             xy = np.array([[math.nan, 1.0], [math.inf, 2.0]])
         pad = rng.choice([0, 0, 1, 3, 16])
         align = rng.choice([None, None, 1, 4, 16, 7])
+        # how the points arrive: another memory layout, a read-only array, single precision, a numpy-integer image shape
+        form = gen.ARRAY_FORMS[int(nprng.integers(0, len(gen.ARRAY_FORMS)))] if len(xy) else "plain"
+        xy = gen.array_form(np.array(xy, dtype="float64"), form)
+        if int(nprng.integers(0, 6)) == 0 and np.isfinite(xy).all() and np.abs(xy).max() < 1e6:
+            xy = xy.astype("float32")
+        if int(nprng.integers(0, 4)) == 0:
+            ny, nx = np.int64(ny), np.int32(nx)
         try:
             R.roi_from_points(xy, (ny, nx), pad, align)
         except Exception:
